@@ -201,8 +201,12 @@ class TxnType(DataflowTransactionContext):  # pylint: disable=too-few-public-met
                     ) - set([compared_on_completion])
             except KeyError:
                 # the compared value is not a transaction type / OnCompletion constant (e.g `int 0`, `int 7`).
-                # The comparison gives no information.
-                return set(U), set(U)
+                compared_value = value_3 if is_int_ins3 else value_2
+                if not isinstance(compared_value, int):
+                    # unknown name: the comparison gives no information.
+                    return set(U), set(U)
+                # none of the known types carries that number: equality never holds for them.
+                true_values, false_values = set(), set(U)
 
             if true_values is not None and false_values is not None:
                 if isinstance(ins1, Eq):
